@@ -16,11 +16,18 @@ TINY = 2.2250738585072014e-308      # std::numeric_limits<double>::min()
 NEG_INF = float("-inf")
 
 
+def sexp(x):
+    try:
+        return math.exp(x)
+    except OverflowError:
+        return math.inf
+
+
 def lse(xs):
     m = max(xs)
     if m == NEG_INF or m == math.inf or m != m:
         return m
-    return m + math.log(math.fsum(math.exp(x - m) for x in xs))
+    return m + math.log(math.fsum(sexp(x - m) for x in xs))
 
 
 # --------------------------------------------------------------------------- generation
@@ -225,7 +232,10 @@ def check_history(case, meta, h, d, stats, hist):
         if len(cw) != n or b["neff_calls"] < 1:
             probs.append(("prop", "resample-trigger", "%s: the effective sample size of the corrected weights was not evaluated" % where))
             break
-        s2 = math.fsum(math.exp(x) ** 2 for x in cw)
+        try:
+            s2 = math.fsum(sexp(x) ** 2 for x in cw)
+        except OverflowError:
+            s2 = math.inf
         neff_py = 1.0 / s2 if s2 > 0 else math.inf
         if not close(b["neff"], neff_py, 64 * n * EPS):
             probs.append(("prop", "neff-wrong", "%s: neff = %.17g, 1/sum(exp(w)^2) = %.17g" % (where, b["neff"], neff_py)))
@@ -235,12 +245,15 @@ def check_history(case, meta, h, d, stats, hist):
         if trig != (b["neff"] < thr):
             probs.append(("prop", "resample-trigger", "%s: neff = %.17g, N/3 = %.17g, resampling %s" % (where, b["neff"], thr, "ran" if trig else "did not run")))
             break
+        if trig and not b["u1ok"]:
+            probs.append(("prop", "assumption-u1-range", "%s: the draw u1 = %s is not in (0, 1/N)" % (where, b["u1"])))
+            break
         if trig:
             if not all(is_minus_log_n(hexd(x), n) for x in b["w"]):
                 probs.append(("prop", "not-uniform-after-resampling", "%s: weights after resampling are not all -log N" % where))
                 break
             par = b["parents"]
-            if len(par) != n or any(not (0 <= q < n) for q in par) or len(b["cs"]) != n or any(hexd(b["x"][j]) != hexd(b["cs"][par[j]]) for j in range(n)) or not b["rows_ok"]:
+            if len(par) != n or any(not (0 <= q < n) for q in par) or len(b["cs"]) != n or any(hexd(b["x"][j]) != hexd(b["cs"][par[j]]) for j in range(n)) or not b["rows_ok"]:   # rows_ok: every full column equals the corrected column at its parent (harness)
                 probs.append(("prop", "resampled-not-copies", "%s: resampled particles are not copies of the corrected particles at the reported parents" % where))
                 break
             pre_x = b["cs"]
@@ -249,13 +262,21 @@ def check_history(case, meta, h, d, stats, hist):
                 probs.append(("prop", "weights-changed-without-resampling", "%s: weights changed after the resampling decision although resampling did not run" % where))
                 break
             pre_x = b["x"]
+        # the predicted set as the (harness-defined) prediction produces it from the previous corrected set
+        if k == 0:
+            exp_pw, exp_ps = list(w0), list(x0)
+        elif skipP:
+            exp_pw, exp_ps = prev_w, prev_x
+        else:
+            exp_pw, exp_ps = prev_w, [x + 1.0 for x in prev_x]
         pw, ps = b["pw"], b["ps"]
         if not fr:
             if not (bits_equal(cw, pw) and bits_equal(pre_x, ps)):
                 probs.append(("prop", "corrected-differs-from-predicted", "%s: acquisition failed but the corrected set is not the predicted set" % where))
                 break
         elif va and not skipC:
-            raw = [w + math.log(li + TINY) for w, li in zip(pw, lik)]
+            # `each weight` = the previous corrected weight (the prediction step hands weights on unchanged)
+            raw = [w + math.log(li + TINY) for w, li in zip(exp_pw, lik)]
             lr = lse(raw)
             want = [x - lr for x in raw]
             if not all(close(a, c) for a, c in zip(cw, want)) or not bits_equal(pre_x, ps):
@@ -266,13 +287,6 @@ def check_history(case, meta, h, d, stats, hist):
             lr = lse(pw)
             if not all(close(a, x - lr) for a, x in zip(cw, pw)) or not bits_equal(pre_x, ps):
                 probs.append(("corr", "unused-measurement", "%s: correction skipped / likelihood invalid: weights are not the predicted ones, normalised" % where))
-        # the predicted set as the (harness-defined) prediction produces it from the previous corrected set
-        if k == 0:
-            exp_pw, exp_ps = list(w0), list(x0)
-        elif skipP:
-            exp_pw, exp_ps = prev_w, prev_x
-        else:
-            exp_pw, exp_ps = prev_w, [x + 1.0 for x in prev_x]
         if not (bits_equal(pw, exp_pw) and bits_equal(ps, exp_ps)):
             probs.append(("corr", "predicted-set", "%s: predicted set is not what the prediction step produces from the previous corrected set" % where))
         if not (b["pn"] == n and b["plin"] == lin and b["pcirc"] == circ and b["pcols"] == n):
@@ -288,13 +302,13 @@ def check_history(case, meta, h, d, stats, hist):
                 probs.append(("corr", "neff-model", "%s: model neff %.17g, implementation %.17g" % (where, mb["neff"], b["neff"])))
                 live = False
             elif mb["trig"] != b["trig"]:
-                if abs(b["neff"] - thr) <= 1e-9 * thr and b["neff"] != thr:
+                if abs(b["neff"] - thr) <= 1e-9 * thr or abs(mb["neff"] - thr) <= 1e-9 * thr:
                     stats["trigger_tolerated_rounding"] = stats.get("trigger_tolerated_rounding", 0) + 1
                 else:
                     probs.append(("corr", "trigger-model", "%s: model trigger %d, implementation %d (neff %.17g, N/3 %.17g)" % (where, mb["trig"], b["trig"], b["neff"], thr)))
                 live = False
             elif trig and mb["parents"] != b["parents"]:
-                e = [Fraction(math.exp(x)) for x in cw]
+                e = [Fraction(sexp(x)) if sexp(x) != math.inf else Fraction(10) ** 400 for x in cw]
                 c = cum_sums(e)
                 u1 = frac_of_hex(b["u1"])
                 tol = Fraction(n * EPS + 2.0 ** -40)
@@ -352,6 +366,8 @@ def run(ctx):
             probs = [("prop", "malformed-output", "harness output not parseable (%r): %s" % (ex, h[:160]))]
         for kind, key2, what in probs:
             (corr_bad if kind == "corr" else prop_bad).append((key2, what, hl, h))
+    prop_bad.sort(key=lambda v: len(v[2]))          # report the smallest failing input of each kind
+    corr_bad.sort(key=lambda v: len(v[2]))
     seen = set()
     for key2, what, hl, h in prop_bad:
         if key2 in seen:
